@@ -946,6 +946,19 @@ def bits_of(words, nbits):
     return [(words[i // 32] >> (i % 32)) & 1 for i in range(nbits)]
 
 
+def decode_n(coder, tree, n, what):
+    """n symbols from a bit-level coder; a decoding error on bits that the encoder wrote itself is a C16 matter"""
+    out = []
+    for _ in range(n):
+        try:
+            out.append(coder.decode_symbol(tree))
+        except (KeyboardInterrupt, SystemExit, MemoryError, Violation, Discard):
+            raise
+        except BaseException as e:  # noqa: BLE001
+            check("C16", False, "symbol/decode_failed", "%s: symbol %d of %d could not be decoded: %s %s" % (what, len(out), n, type(e).__name__, str(e)[:120]))
+    return out
+
+
 def run_symbol(case):
     weights = case["weights"]
     n = len(weights)
@@ -997,7 +1010,7 @@ def run_symbol(case):
         # a temporary decoder taken in the middle of a message: it decodes what was written so far and the
         # encoder goes on as if nothing had happened (C08)
         dm = qe.get_decoder()
-        gotm = [dm.decode_symbol(dt) for _ in msg]
+        gotm = decode_n(dm, dt, len(msg), "decoder taken midway")
         check("C16", gotm == msg, "symbol/queue_not_fifo", lambda: "decoder taken midway decoded %r, encoded %r" % (gotm, msg))
         wq, nq = qe.get_compressed_and_bitrate()
         check("C08", nq == total and bits_of(wq.tolist(), nq) == want_bits, "symbol/get_decoder_changed_encoder",
@@ -1027,14 +1040,14 @@ def run_symbol(case):
     all_bits = [b for s in allmsg for b in code[s]]
     check("C16", nf == len(all_bits) and bits_of(wf.tolist(), nf) == all_bits, "symbol/queue_bits_differ",
           lambda: "at the end the queue holds %d bits %r, codewords in order are %r" % (nf, bits_of(wf.tolist(), nf), all_bits))
-    got = [qd.decode_symbol(dt) for _ in allmsg]
+    got = decode_n(qd, dt, len(allmsg), "queue decoder")
     check("C16", got == allmsg, "symbol/queue_not_fifo", lambda: "decoded %r, encoded %r" % (got, allmsg))
     # LIFO, directly or through export / re-import
     if how // 2 % 2 == 1 and allmsg:
         w4, _ = sc.get_compressed_and_bitrate()
         sc = SYM.StackCoder(w4)
         label("symbol:stack_reimport")
-    got = [sc.decode_symbol(dt) for _ in allmsg]
+    got = decode_n(sc, dt, len(allmsg), "stack coder")
     check("C16", got == allmsg[::-1], "symbol/stack_not_lifo", lambda: "decoded %r, encoded %r" % (got, allmsg))
     wz, nz = sc.get_compressed_and_bitrate()
     check("C16", nz == 0, "symbol/stack_not_empty_after_popping_everything", "bitrate %d after popping everything" % nz)
